@@ -72,7 +72,7 @@ def main():
         i = p['id']
         if i in CLAIMED:
             tech, text, note, ref = CLAIMED[i]
-            if i in ("C01", "C02", "C12"):
+            if i in ("C01", "C02", "C03", "C08", "C12", "C15"):
                 tech += "; thorough tier adds coverage-guided fuzzing (libFuzzer target fuzz_history: raw histories, this property's oracle in-target)"
             elif i in ("C09", "C10", "C16"):
                 tech += "; thorough tier adds coverage-guided fuzzing (libFuzzer targets fuzz_history and fuzz_plan with this property's oracle in-target)"
